@@ -35,7 +35,10 @@ OutflowOf(d) == [t \in 1..N |-> [lab \in Labs |-> (d[t][lab] * 2 + t) % 3]]
 \* the stock-driven class needs a non-zero diagonal; labels without one are left unspecified (RNaN) -
 \* but they must not disturb the other labels (C16)
 \* "stockint": the prescribed stock is the integer driver itself (e.g. unit counts), not one derived from an inflow
-Classes == {"flow", "inflow"} \cup (IF \E lab \in Labs : SolvableLab(lab) THEN {"stock", "stockint"} ELSE {})
+\* (an arbitrary integer stock divided through a survival table with large denominators leaves TLC's 32-bit integers:
+\* "stockint" is only enumerated for tables in halves, thirds and quarters)
+SmallDens == \A t \in 1..N, c \in 1..N, lab \in Labs : SF(t, c, lab)[2] <= 4
+Classes == {"flow", "inflow"} \cup (IF \E lab \in Labs : SolvableLab(lab) THEN {"stock"} \cup (IF SmallDens THEN {"stockint"} ELSE {}) ELSE {})
 Init == /\ cfg \in {[cls |-> c, driver |-> d] : c \in Classes, d \in Drivers}
         /\ res = [pending |-> TRUE] /\ phase = "cfg"
 
